@@ -411,7 +411,7 @@ int main() {
     } catch (torrent::internal_error& e) {
       std::cout << "ERR:internal || " << e.what() << "\n";
       std::cout.flush();
-      _exit(3);   // the session is not usable after an internal_error; run_sharded restarts after this case
+      _exit(0);   // the session is not usable after an internal_error; run_sharded restarts after this case (rc 0: the line above IS the result)
     } catch (std::exception& e) {
       std::cout << "ERR:other " << e.what() << "\n";
       std::cout.flush();
